@@ -242,7 +242,8 @@ def gen_cases(rng, tier):
                     cases.append({"family": "norm_statio", **_base(rng, False, D, 2, M, 2, B),
                                   "L": _q(rng.choice([1, 2, Fraction(1, 2), 4])), "w": _q(rng.choice([1, 2]))})
         for dx in (1, 2):
-            for (Bt, Bn) in ([rng.choice([(1, 2), (2, 2), (2, 4), (4, 4)])] if quick else [(1, 1), (1, 2), (2, 2), (2, 4), (4, 4), (1, 4)]):
+            # (2, 4) in every run: more samples than time stamps, at least two time stamps (repeat vs tile shows)
+            for (Bt, Bn) in ([(2, 4), rng.choice([(1, 2), (2, 2), (4, 4)])] if quick else [(1, 1), (1, 2), (2, 2), (2, 4), (4, 4), (1, 4)]):
                 c = {"family": "norm_nonstatio", **_base(rng, True, dx + 1, 2, 1, 2, Bn),
                      "L": _q(rng.choice([1, 2, Fraction(1, 2)])), "w": _q(rng.choice([1, 2]))}
                 c["T"] = [_q(t) for t in rng.sample(COORDS, Bt)]
